@@ -25,7 +25,7 @@ func init() {
 	for _, p := range []struct {
 		name string
 		gen  func(*Rand, string, func(sx.Sx))
-	}{{"redis", genRedisConv}, {"amqp", genAmqpConv}, {"http", genHttpStages}, {"kafka", genKafkaStages}} {
+	}{{"redis", genRedisConv}, {"amqp", genAmqpConv}, {"http", genHttpStages}, {"kafka", genKafkaStages}, {"h2c", genH2c}} {
 		p := p
 		families["progress."+p.name] = &Family{
 			Gen: func(r *Rand, tier string, emit func(sx.Sx)) {
@@ -98,7 +98,7 @@ func runProgressConv(proto string, p sx.Sx) sx.Sx {
 	cb, sb := stagesEncode(proto, conv)
 	stats := &api.AppStats{}
 	out := make(chan *api.OutputChannelItem, 1<<14)
-	port := map[string]string{"redis": "6379", "amqp": "5672", "http": "80", "kafka": "9092"}[proto]
+	port := map[string]string{"redis": "6379", "amqp": "5672", "http": "80", "kafka": "9092", "h2c": "80"}[proto]
 	m := d.NewResponseRequestMatcher()
 	m.SetMaxTry(1)
 	conn := mock.NewConn(d, m, stats, out, "pcap0", "10.0.0.1", "40000", "10.0.0.2", port)
